@@ -21,7 +21,7 @@ pub static PROP: Prop = Prop {
         "the violation signature names the panic site and build profile; the state class and the datagram are in the detail",
     ],
     profiles: Profiles::Both,
-    cases: |t| t.pick(60_000, 1_500_000),
+    cases: |t| t.pick(40_000, 1_500_000),
     budget_s: |t| t.pick(40, 400),
     run,
     min_nontrivial: 500,
